@@ -13,6 +13,10 @@ st = subprocess.run(['git', '-C', '/repo', 'status', '--porcelain', '--untracked
 if st:
     sys.exit('/repo has local changes; refusing: ' + st)
 res = {}
+import shutil
+for p in props:
+    ev = os.path.join(VERIF, 'evidence', p + '.json')
+    if os.path.exists(ev): shutil.copy(ev, ev + '.bak')
 try:
     subprocess.run(['git', '-C', '/repo', 'apply', os.path.join(d, 'patch.diff')], check=True)
     for p in props:
@@ -30,6 +34,9 @@ try:
         for f in fails[:3]: print('    ', f[:300])
 finally:
     subprocess.run(['git', '-C', '/repo', 'checkout', '--', '.'], check=True)
+    for p in props:
+        ev = os.path.join(VERIF, 'evidence', p + '.json')
+        if os.path.exists(ev + '.bak'): shutil.move(ev + '.bak', ev)
 old = {}
 dp = os.path.join(d, 'detect.json')
 if os.path.exists(dp): old = json.load(open(dp))
